@@ -34,13 +34,27 @@ fn okt<T, E: std::fmt::Debug>(r: Result<T, E>) -> Cell {
 struct Frame {
     ptrs: Vec<(*mut u8, usize)>,
     snap: Vec<Vec<u8>>,
+    /// memory that has no stable host address (on-demand Xen regions): read through a closure
+    reader: Option<Box<dyn Fn() -> Vec<u8>>>,
+    rsnap: Vec<u8>,
 }
 impl Frame {
     fn new(ptrs: Vec<(*mut u8, usize)>) -> Frame {
         let snap = ptrs.iter().map(|(p, l)| (0..*l).map(|i| unsafe { p.add(i).read_volatile() }).collect()).collect();
-        Frame { ptrs, snap }
+        Frame { ptrs, snap, reader: None, rsnap: vec![] }
+    }
+    #[allow(dead_code)]
+    fn with_reader(reader: Box<dyn Fn() -> Vec<u8>>) -> Frame {
+        let rsnap = reader();
+        Frame { ptrs: vec![], snap: vec![], reader: Some(reader), rsnap }
     }
     fn changed(&self) -> Option<(usize, usize)> {
+        if let Some(rd) = &self.reader {
+            let now = rd();
+            if let Some(i) = now.iter().zip(self.rsnap.iter()).position(|(a, b)| a != b) {
+                return Some((0, i));
+            }
+        }
         for (ri, (p, l)) in self.ptrs.iter().enumerate() {
             for i in 0..*l {
                 if unsafe { p.add(i).read_volatile() } != self.snap[ri][i] {
@@ -400,8 +414,63 @@ fn one_layout(lay: &Layout, tag: &str, r: &mut Rng) {
     }
 }
 
+/// Xen build: the same matrix on grant regions mapped on demand, grant regions mapped in advance
+/// and foreign regions (emulated devices).
+#[cfg(feature = "xen")]
+fn xen_regions() {
+    use crate::models::xenemu::Emu;
+    use vm_memory::{MmapRange, MmapRegion};
+    for (flags, kname) in [(0x2u32 | 0x8, "ondemand"), (0x2, "grant-advance"), (0x1, "foreign")] {
+        out::case(100, jobj! {"op" => kname});
+        let emu = Emu::install(8 << 20);
+        let gbase = 0x20000u64;
+        let size = 3 * 4096 + 5;
+        let foff = if flags & 0x1 != 0 { 0 } else { gbase };
+        let init: Vec<u8> = (0..size).map(|i| (i as u8) ^ 0x6d).collect();
+        emu.write_guest(foff, &init);
+        let range = MmapRange::new(size, Some(emu.file_offset(0)), GuestAddress(gbase), flags, 2);
+        let region = match MmapRegion::<AtomicBitmap>::from_range(range) {
+            Ok(r) => r,
+            Err(e) => {
+                out::viol(&format!("C18/xen/{}/construction-failed", kname), J::dbg(&e));
+                continue;
+            }
+        };
+        let gm = GuestMemoryMmap::from_regions(vec![GuestRegionMmap::new(region, GuestAddress(gbase)).unwrap()]).unwrap();
+        let file = emu.file.clone();
+        let frame = Frame::with_reader(Box::new(move || {
+            use std::os::unix::fs::FileExt;
+            let mut b = vec![0u8; size];
+            file.read_exact_at(&mut b, foff).unwrap();
+            b
+        }));
+        let dirty = || count_dirty(&gm);
+        let lay = Layout::new(vec![(gbase as u128, size as u128)]);
+        guest_matrix(&gm, &lay, &format!("guest-xen-{}/single", kname), &frame, &dirty);
+        let reg = gm.iter().next().unwrap();
+        region_matrix(reg, &format!("region-xen-{}/single", kname), &frame, &dirty);
+        let s = GuestMemoryRegion::as_volatile_slice(reg).unwrap();
+        slice_matrix(&s, &format!("xen-{}-slice", kname), &frame, &dirty);
+        let sub = s.subslice(4090, 40).unwrap();
+        slice_matrix(&sub, &format!("xen-{}-subslice", kname), &frame, &dirty);
+        // nothing may be left mapped by zero-length accesses
+        let baseline = if flags & 0x8 != 0 { 0 } else if flags & 0x2 != 0 { 1 } else { 0 };
+        if emu.live().len() != baseline {
+            out::viol(&format!("C18/xen/{}/window-left-mapped-by-zero-length-access", kname), J::dbg(&emu.live()));
+        }
+        drop(gm);
+        drop(emu);
+    }
+}
+
 pub fn run(args: &Args) {
     out::set_quiet_cases(true);
+    #[cfg(feature = "xen")]
+    if crate::common::interpose::available() {
+        if let Err(p) = guarded(xen_regions) {
+            out::viol(&format!("C18/xen/panic/{}", panic_sig(&p)), J::s(p));
+        }
+    }
     // fixed layouts (complete matrix)
     let top = 1u128 << 64;
     let layouts: Vec<(&str, Vec<(u128, u128)>)> = vec![
